@@ -88,6 +88,11 @@ HasPath(tree, p) ==
   ELSE IF "i" \in DOMAIN p[1] THEN p[1].i + 1 <= Len(tree.a) /\ HasPath(tree.a[p[1].i + 1], Tail(p))
   ELSE p[1].n \in DOMAIN tree.d /\ HasPath(tree.d[p[1].n], Tail(p))
 
+\* the dotted path text of a site
+RECURSIVE PathStr(_)
+SegStr(sg) == IF "i" \in DOMAIN sg THEN ToString(sg.i) ELSE sg.n
+PathStr(p) == IF p = <<>> THEN "" ELSE IF Len(p) = 1 THEN SegStr(p[1]) ELSE SegStr(p[1]) \o "." \o PathStr(Tail(p))
+
 \* C14's statement
 Outcome(site) == [err |-> [path |-> site.p, typed |-> TRUE, source |-> TRUE]]
 ==========================================================================
